@@ -228,6 +228,28 @@ theorem C06_waiting_reply (v : Val) (cid : Option String) (id : JVal) (cast : Bo
   unfold runTopCb
   cases send <;> cases v <;> first | exact Nat.le_refl _ | exact sendReply_le _ _ _ _ _ _ s
 
+/-- **an operation that fails part-way still gets its one reply**: when the future of a `waiting` request
+    completes with an exception — whatever the class: the `psutil.AccessDenied` of a worker the daemon is not
+    permitted to signal, a `KeyError`, … — the done-callback (`_dispatch_callback_future`) writes exactly one
+    reply for a connected client that did not send a cast: status error, the request's own id, errno 6
+    (BAD_MSG_DATA_ERROR, "server error"); nothing else is written. -/
+theorem C06_failed_operation_one_error_reply (e : Exc) (cid : String) (id : JVal) (cmd xform : String) (s : State)
+    (ho : s.a.ctlClosed = false) (hb : s.blocked = false) :
+    (runTopCb (.exc e) (.reply (some cid) id false cmd true xform) s).2.log =
+      s.log ++ [Obs.rep cid id "error" "6" "-"] := by
+  unfold runTopCb
+  simp only [if_true]
+  exact sendReply_exact cid _ _ _ _ s ho hb
+
+/-- … and the same failure of a request that was **not** `waiting` writes nothing: its `ok` went out when the
+    request was accepted, the failure is only logged -/
+theorem C06_failed_operation_not_waiting_silent (e : Exc) (cid : Option String) (id : JVal) (cast : Bool)
+    (cmd xform : String) (s : State) :
+    runTopCb (.exc e) (.reply cid id cast cmd false xform) s = ((), s) := by
+  unfold runTopCb
+  simp only [Bool.false_eq_true, if_false]
+  rfl
+
 /-- no other done-callback writes a reply: releasing the slot, logging a watcher-start failure,
     popping a reaped pid -/
 theorem C06_other_callbacks_silent (v : Val) (cb : TopCb) (s : State)
@@ -278,5 +300,23 @@ theorem C06_raised_errno (n : String) :
 -- the hypotheses of `C06_raised_exactly_one_reply` on a concrete request
 example : (dispatchRaised (some "c0") (.obj [("id", .str "r2"), ("command", .str "set")]) (excOfClass "SystemExit")
             (initState [] [] 0)).2.log = [Obs.rep "c0" (.str "r2") "error" "5" "-"] := by rfl
+
+
+/-! operations that fail part-way, evaluated: watcher "a" whose worker 100 the daemon may not signal (EPERM) -/
+def c06e : State := run (initState [{ name := "a" }] [{ eperm := true }] 0) [.start, .wake, .wake, .wake]
+def c06eReq (cmd : String) (props : List (String × JVal)) : Op :=
+  .req "c0" (some (.obj [("command", .str cmd), ("id", .str "r"), ("properties", .obj (("name", .str "a") :: props))]))
+-- `stop --waiting`: the stop fails in the request step, one reply: error, errno 6; the daemon goes on serving: the
+-- next request (`numprocesses`) is answered as well
+example : ((run c06e [c06eReq "stop" [("waiting", .bool true)], c06eReq "numprocesses" []]).log.drop c06e.log.length).map showObs =
+    ["o sig 100 15 r!", "o rep c0 s114 error 6 -", "o rep c0 s114 ok - numprocesses=1"] := by decide +kernel
+-- `stop` without waiting: the `ok` of the accepted request is the one reply, the failure adds none
+example : ((run c06e [c06eReq "stop" [], .wake, .check]).log.drop c06e.log.length).map showObs =
+    ["o sig 100 15 r!", "o rep c0 s114 ok - -", "o nosleeper"] := by decide +kernel
+-- `signal` (synchronous): the AccessDenied escapes from `execute` into the bare `except:` of dispatch: errno 5
+example : ((run c06e [c06eReq "signal" [("signum", .int 10)]]).log.drop c06e.log.length).map showObs =
+    ["o sig 100 10 r!", "o rep c0 s114 error 5 -"] := by decide +kernel
+example := C06_failed_operation_one_error_reply (.other "AccessDenied") "c0" (.str "r") "stop" "none" c06e (by decide +kernel)
+  (by decide +kernel)
 
 end Circus.Core
